@@ -83,6 +83,11 @@ func SortedMapKeys(m reflect.Value) []reflect.Value {
 	keys := m.MapKeys()
 	sort.SliceStable(keys, func(i, j int) bool {
 		a, b := keys[i].Interface(), keys[j].Interface()
+		// Less orders only like with like; comparing a number with a string by printed form would
+		// not be transitive (4 < 10, 10 < "10", "10" < 4), so keys are grouped by class first.
+		if ca, cb := keyClass(keys[i]), keyClass(keys[j]); ca != cb {
+			return ca < cb
+		}
 		switch {
 		case Less(a, b):
 			return true
@@ -92,4 +97,18 @@ func SortedMapKeys(m reflect.Value) []reflect.Value {
 		return fmt.Sprintf("%T %v", a, a) < fmt.Sprintf("%T %v", b, b)
 	})
 	return keys
+}
+
+// keyClass groups map keys for SortedMapKeys: numbers, then strings, then everything else.
+func keyClass(k reflect.Value) int {
+	for k.Kind() == reflect.Interface && !k.IsNil() {
+		k = k.Elem()
+	}
+	switch {
+	case isIntKind(k.Kind()) || isFloatKind(k.Kind()):
+		return 0
+	case k.Kind() == reflect.String:
+		return 1
+	}
+	return 2
 }
